@@ -139,6 +139,56 @@ class FnInfo:
             self._mut = m
         return self._mut
 
+    def additions(self, name: str) -> T.List[T.Tuple[Node, ast.AST, T.Optional[ast.AST]]]:
+        """Normal form of "an element is added to list `name`": append(a) / extend([a, b]) / `name += [a, b]` / `name = name + [a]` /
+        `name = [*name, a]` -> (node, construct, a).  An addition the rule cannot itemise (extend(f()), insert, += other) has element None."""
+        out: T.List[T.Tuple[Node, ast.AST, T.Optional[ast.AST]]] = []
+
+        def items(e: ast.AST) -> T.Optional[T.List[ast.AST]]:
+            if isinstance(e, (ast.List, ast.Tuple)) and not any(isinstance(x, ast.Starred) for x in e.elts):
+                return list(e.elts)
+            return None
+        for n in self.cfg.nodes:
+            for c in node_calls(n):
+                f = c.func
+                if isinstance(f, ast.Attribute) and isinstance(f.value, ast.Name) and f.value.id == name and f.attr in MUTATORS:
+                    if f.attr == 'append' and len(c.args) == 1 and not c.keywords:
+                        out.append((n, c, c.args[0]))
+                    elif f.attr == 'extend' and len(c.args) == 1 and items(c.args[0]) is not None:
+                        out.extend((n, c, x) for x in items(c.args[0]) or [])
+                    else:
+                        out.append((n, c, None))
+            st = n.ast if n.kind == 'stmt' else None
+            if isinstance(st, ast.AugAssign) and isinstance(st.target, ast.Name) and st.target.id == name and isinstance(st.op, ast.Add):
+                its = items(st.value)
+                out.extend([(n, st, x) for x in its] if its is not None else [(n, st, None)])
+            elif isinstance(st, ast.Assign) and len(st.targets) == 1 and isinstance(st.targets[0], ast.Name) and st.targets[0].id == name:
+                v = st.value
+                if isinstance(v, ast.BinOp) and isinstance(v.op, ast.Add) and isinstance(v.left, ast.Name) and v.left.id == name:
+                    its = items(v.right)
+                    out.extend([(n, st, x) for x in its] if its is not None else [(n, st, None)])
+                elif isinstance(v, ast.List) and v.elts and isinstance(v.elts[0], ast.Starred) and isinstance(v.elts[0].value, ast.Name) and v.elts[0].value.id == name:
+                    rest = v.elts[1:]
+                    out.extend([(n, st, x) for x in rest] if not any(isinstance(x, ast.Starred) for x in rest) else [(n, st, None)])
+        return out
+
+    def base_defs(self, name: str, at: Node) -> T.List[T.Union[Def, str]]:
+        """Reaching definitions of list `name` at `at`, looking through definitions that only add to it (`+=`, `x = x + [..]`)."""
+        add_nodes = {n.id for n, c, _ in self.additions(name) if isinstance(c, (ast.AugAssign, ast.Assign))}
+        out: T.List[T.Union[Def, str]] = []
+        seen: T.Set[int] = set()
+        work = [at]
+        while work:
+            cur = work.pop()
+            for d in self.reaching(name, cur):
+                if isinstance(d, Def) and d.node.id in add_nodes:
+                    if d.node.id not in seen:
+                        seen.add(d.node.id)
+                        work.append(d.node)
+                elif d not in out:
+                    out.append(d)
+        return out
+
     # -- reachability -------------------------------------------------------
     def reach(self, start: Node, avoid: T.Iterable[Node] = ()) -> T.Set[int]:
         key = (start.id, frozenset(a.id for a in avoid))
@@ -302,13 +352,34 @@ class Pairing(T.NamedTuple):
     var: T.Optional[str]
 
 
-def _arg_position(call: ast.Call, var: str) -> T.Optional[T.Union[int, str]]:
-    for i, a in enumerate(call.args):
+def strip_cast(e: ast.AST) -> ast.AST:
+    """`T.cast(X, e)` / `typing.cast(X, e)` -> e (casts do nothing at run time)."""
+    while isinstance(e, ast.Call) and call_name(e) in ('T.cast', 'typing.cast', 'cast') and len(e.args) == 2 and not e.keywords:
+        e = e.args[1]
+    return e
+
+
+def _arg_position(call: ast.Call, var: str, skip: int = 0) -> T.Optional[T.Union[int, str]]:
+    for i, a in enumerate(call.args[skip:]):
+        a = strip_cast(a)
         if isinstance(a, ast.Name) and a.id == var:
             return i
     for k in call.keywords:
-        if k.arg and isinstance(k.value, ast.Name) and k.value.id == var:
+        v = strip_cast(k.value)
+        if k.arg and isinstance(v, ast.Name) and v.id == var:
             return k.arg
+    return None
+
+
+def self_call(call: ast.Call, cls: str) -> T.Optional[T.Tuple[str, int]]:
+    """`self.m(...)` -> ('self.m', 0); `Cls.m(self, ...)` -> ('self.m', 1) (explicit receiver); else None."""
+    cn = call_name(call)
+    if not cn:
+        return None
+    if cn.startswith('self.'):
+        return cn, 0
+    if cn.startswith(cls + '.') and cn.count('.') == 1 and call.args and isinstance(call.args[0], ast.Name) and call.args[0].id == 'self':
+        return 'self.' + cn.split('.')[1], 1
     return None
 
 
@@ -346,10 +417,11 @@ class Registrar:
 
     def registers(self, n: Node, var: str, depth: int = 0) -> bool:
         for c in node_calls(n):
-            cn = call_name(c)
+            sc = self_call(c, self.cls)
+            cn, skip = sc if sc is not None else (call_name(c), 0)
             if cn is None:
                 continue
-            pos = _arg_position(c, var)
+            pos = _arg_position(c, var, skip)
             if pos is None:
                 continue
             if cn in self.direct:
@@ -379,6 +451,77 @@ class Registrar:
         ok = bool(regs) and not kills and cfg.exit_return.id not in hi.reach(cfg.entry, regs)
         self._helper[key] = ok
         return ok
+
+
+def _uses_of(fn: ast.AST, var: str) -> T.List[ast.Name]:
+    return [x for x in ast.walk(fn) if isinstance(x, ast.Name) and x.id == var and isinstance(x.ctx, ast.Load)]
+
+
+def captures(infos: Infos, cls: str, q: str, param: str, depth: int = 0, seen: T.Optional[T.Set[T.Tuple[str, str]]] = None) -> bool:
+    """May method `q` keep its parameter `param` beyond the call (store it, return it, hand it to code the analysis cannot see)?"""
+    seen = seen if seen is not None else set()
+    if (q, param) in seen:
+        return False
+    seen.add((q, param))
+    if depth > 2 or not infos.mod.has_func(q):
+        return True
+    fn = infos.mod.func(q)
+    pm = infos.mod.parent_map()
+    for u in _uses_of(fn, param):
+        if _use_escapes(infos, cls, u, pm, depth, seen, None):
+            return True
+    return False
+
+
+def _use_escapes(infos: Infos, cls: str, u: ast.Name, pm: T.Dict[ast.AST, ast.AST], depth: int, seen: T.Set[T.Tuple[str, str]],
+                 reg: T.Optional['Registrar']) -> bool:
+    par = pm.get(u)
+    if isinstance(par, ast.Attribute) and par.value is u:
+        return False                      # u.attr / u.method(...)
+    if isinstance(par, (ast.Compare, ast.BoolOp, ast.UnaryOp, ast.If, ast.While, ast.IfExp, ast.Assert, ast.FormattedValue, ast.JoinedStr)):
+        return isinstance(par, ast.IfExp) and par.test is not u
+    call = par if isinstance(par, ast.Call) and u in par.args else (pm.get(par) if isinstance(par, ast.keyword) else None)
+    if isinstance(call, ast.Call) and call_name(call) in ('T.cast', 'typing.cast', 'cast'):
+        # a cast is transparent: judge the use of the cast expression instead
+        fake = call
+        par2 = pm.get(fake)
+        call = par2 if isinstance(par2, ast.Call) and fake in par2.args else (pm.get(par2) if isinstance(par2, ast.keyword) else None)
+        if call is None:
+            return True
+        u = fake  # type: ignore[assignment]
+    if isinstance(call, ast.Call):
+        sc = self_call(call, cls)
+        cn = sc[0] if sc is not None else (call_name(call) or '')
+        if cn in ('isinstance', 'id', 'repr', 'str', 'len', 'bool', 'type', 'hasattr', 'getattr'):
+            return False
+        if reg is not None and cn in reg.direct:
+            return False
+        if cn.startswith('self.') and cn.count('.') == 1 and infos.mod.has_func(f'{cls}.{cn[5:]}'):
+            q = f'{cls}.{cn[5:]}'
+            if sc is not None and sc[1]:
+                import copy
+                call2 = copy.copy(call)
+                call2.args = call.args[1:]
+                b = bind_call(call2, infos.mod.func(q), True) or {}
+            else:
+                b = bind_call(call, infos.mod.func(q), True) or {}
+            names = [k for k, v in b.items() if v is u]
+            if len(names) == 1 and names[0] not in ('*', '**'):
+                return captures(infos, cls, q, names[0], depth + 1, seen)
+        return True
+    return True        # alias, display, return, yield, store, closure ...
+
+
+def escapes(info: FnInfo, infos: Infos, cls: str, var: str, reg: 'Registrar') -> T.Optional[str]:
+    """A use of local `var` through which the object may be registered/kept by code the pairing check does not see (None: closed)."""
+    pm = infos.mod.parent_map()
+    for u in _uses_of(info.fn, var):
+        par = pm.get(u)
+        if isinstance(par, ast.Return) and par.value is u:
+            continue                      # handled by the pairing itself
+        if _use_escapes(infos, cls, u, pm, 0, set(), reg):
+            return short(pm.get(par, par) if isinstance(par, (ast.keyword,)) else par, 80)
+    return None
 
 
 def pairing(info: FnInfo, call: ast.Call, reg: Registrar) -> Pairing:
@@ -429,6 +572,9 @@ def pairing(info: FnInfo, call: ast.Call, reg: Registrar) -> Pairing:
                     bad = f'`{var}` is overwritten by `{short(k.ast if k.kind == "stmt" else node_roots(k)[0], 70)}` before it is registered'
                     break
         if bad:
+            esc = escapes(info, reg.infos, reg.cls, var, reg)
+            if esc is not None:
+                raise Undecided(f'{info.qn}: `{var}` is not registered on every path here, but `{esc}` hands it to code that may register or keep it')
             results.append(Pairing('violated', bad, var))
             continue
         # registered twice without being re-created: the second registration always reports a duplicate
@@ -483,6 +629,78 @@ def _back(info: FnInfo, n: Node) -> T.Set[int]:
 # ----------------------------------------------------------------------------
 # symbolic rule names
 # ----------------------------------------------------------------------------
+def template_parts(e: ast.AST) -> T.Optional[T.List[T.Union[str, ast.AST]]]:
+    """One normal form for string building: f-string, `a + 'lit'`, `'..%s..' % x`, `'..{}..'.format(x)`, `''.join([a, 'lit'])`
+    -> [literal | expression, ...].  None when the expression is not such a template (or uses specs/conversions)."""
+    if isinstance(e, ast.Constant) and isinstance(e.value, str):
+        return [e.value]
+    if isinstance(e, ast.JoinedStr):
+        out: T.List[T.Union[str, ast.AST]] = []
+        for v in e.values:
+            if isinstance(v, ast.Constant):
+                out.append(str(v.value))
+            elif isinstance(v, ast.FormattedValue):
+                if v.conversion != -1 or v.format_spec is not None:
+                    return None
+                out.append(v.value)
+        return out
+    if isinstance(e, ast.BinOp) and isinstance(e.op, ast.Add):
+        a, b = template_parts(e.left), template_parts(e.right)
+        if a is None or b is None:
+            return None
+        return a + b
+    if isinstance(e, ast.BinOp) and isinstance(e.op, ast.Mod) and isinstance(e.left, ast.Constant) and isinstance(e.left.value, str):
+        args = list(e.right.elts) if isinstance(e.right, ast.Tuple) else [e.right]
+        out = []
+        pieces = e.left.value.split('%s')
+        if '%' in ''.join(pieces).replace('%%', '') or len(pieces) - 1 != len(args):
+            return None
+        for i, lit in enumerate(pieces):
+            if lit:
+                out.append(lit.replace('%%', '%'))
+            if i < len(args):
+                out.append(args[i])
+        return out
+    if isinstance(e, ast.Call) and isinstance(e.func, ast.Attribute) and e.func.attr == 'format' and isinstance(e.func.value, ast.Constant) \
+            and isinstance(e.func.value.value, str) and not e.keywords and not any(isinstance(a, ast.Starred) for a in e.args):
+        out = []
+        auto = 0
+        try:
+            fields = list(string.Formatter().parse(e.func.value.value))
+        except ValueError:
+            return None
+        for lit, field, spec, conv in fields:
+            if lit:
+                out.append(lit)
+            if field is None:
+                continue
+            if spec or conv:
+                return None
+            if field == '':
+                i = auto
+                auto += 1
+            elif field.isdigit():
+                i = int(field)
+            else:
+                return None
+            if i >= len(e.args):
+                return None
+            out.append(e.args[i])
+        return out
+    if isinstance(e, ast.Call) and isinstance(e.func, ast.Attribute) and e.func.attr == 'join' and isinstance(e.func.value, ast.Constant) \
+            and isinstance(e.func.value.value, str) and len(e.args) == 1 and not e.keywords and isinstance(e.args[0], (ast.List, ast.Tuple)) \
+            and not any(isinstance(x, ast.Starred) for x in e.args[0].elts):
+        sep = e.func.value.value
+        out = []
+        for i, x in enumerate(e.args[0].elts):
+            if i and sep:
+                out.append(sep)
+            sub = template_parts(x)
+            out.extend(sub if sub is not None else [x])
+        return out
+    return [e]
+
+
 class Hole(T.NamedTuple):
     role: str
 
@@ -593,6 +811,9 @@ class SymEval:
             return _product(parts)
         if isinstance(e, ast.BinOp) and isinstance(e.op, ast.Add):
             return _product([self.shapes(e.left, fr, at, depth, busy), self.shapes(e.right, fr, at, depth, busy)])
+        parts_t = template_parts(e)
+        if parts_t is not None and not (len(parts_t) == 1 and parts_t[0] is e):
+            return _product([{(p,)} if isinstance(p, str) else self.shapes(p, fr, at, depth, busy) for p in parts_t if p != ''])
         if isinstance(e, ast.IfExp):
             return self.shapes(e.body, fr, at, depth, busy) | self.shapes(e.orelse, fr, at, depth, busy)
         if isinstance(e, ast.Subscript) and isinstance(e.value, ast.Call) and call_name(e.value) in ('PerMachine', 'mesonlib.PerMachine') \
@@ -629,6 +850,41 @@ class SymEval:
         if isinstance(e, ast.Name):
             return self._name(e.id, fr, at, depth, busy)
         raise Undecided(f'rule-name expression `{short(e, 60)}` is outside the string subset')
+
+    def _const_iter(self, d: Def, fr: Frame) -> T.Optional[T.Set[Shape]]:
+        """Loop variable over a constant sequence (of strings, or of tuples when unpacked): the strings at that position."""
+        from ..consteval import fold_expr
+        assert d.value is not None
+        e = inline_locals(fr.info, d.value, d.node)
+        if isinstance(e, (ast.List, ast.Tuple)) and e.elts:
+            # a display whose rows may hold non-constant members: only the position that is read has to be a string constant
+            picked = []
+            for el in e.elts:
+                sub = el if d.index is None else (el.elts[d.index] if isinstance(el, (ast.Tuple, ast.List)) and d.index < len(el.elts) else None)
+                if not (isinstance(sub, ast.Constant) and isinstance(sub.value, str)):
+                    picked = []
+                    break
+                picked.append(sub.value)
+            if picked:
+                return {((x,) if x else ()) for x in picked}
+        try:
+            v = fold_expr(self.repo, self.mod, e)
+        except Exception:
+            return None
+        if isinstance(v, dict):
+            v = list(v.keys()) if d.index is None else None
+        if not isinstance(v, (list, tuple)) or not v:
+            return None
+        items = []
+        for x in v:
+            if d.index is not None:
+                if not isinstance(x, (list, tuple)) or d.index >= len(x):
+                    return None
+                x = x[d.index]
+            if not isinstance(x, str):
+                return None
+            items.append(x)
+        return {((x,) if x else ()) for x in items}
 
     def _table_values(self, recv: ast.AST, fr: Frame, at: T.Optional[Node]) -> T.Optional[T.Set[Shape]]:
         """If `recv` folds to a constant mapping/sequence of strings (module- or class-level table, or a local dict display): its values."""
@@ -755,6 +1011,8 @@ class SymEval:
                 out |= self.shapes(d.value, fr, d.node, depth, busy)
             elif d.kind == 'aug' and d.value is not None and isinstance(d.node.ast, ast.AugAssign) and isinstance(d.node.ast.op, ast.Add):
                 out |= _product([self._name(name, fr, d.node, depth, busy), self.shapes(d.value, fr, d.node, depth, busy)])
+            elif d.kind == 'iter' and d.value is not None and self._const_iter(d, fr) is not None:
+                out |= self._const_iter(d, fr) or set()
             elif d.kind == 'iter' and d.index == 0 and isinstance(d.value, ast.Call) and isinstance(d.value.func, ast.Attribute) \
                     and d.value.func.attr == 'items' and not d.value.args:
                 org = Tracer(info).origins(d.value.func.value, d.node)
